@@ -76,7 +76,37 @@ impl Point {
 //@ item layout21raw/src/data.rs :: struct Element
 //@ end
 pub mod raw { pub use super::{Point, Rect, Polygon, Path, Shape, LayerPurpose, Element, LayerKey}; }
-pub mod validate { pub use super::{ValidMetalLayer, ValidStack}; }
+pub mod validate { pub use super::{ValidMetalLayer, ValidStack, ValidAssign}; }
+/// model of layout21utils::Unwrapper (Some(t)/Ok(t) => Ok(t); None/Err(_) => the helper's error)
+pub trait Unwrapper: Sized {
+    type Ok;
+    spec fn some_spec(&self) -> Option<Self::Ok>;
+    fn unwrapper<M>(self, helper: &RawExporter, msg: M) -> (r: Result<Self::Ok, LayoutError>)
+        ensures self.some_spec() is Some ==> r == Ok::<Self::Ok, LayoutError>(self.some_spec()->0), self.some_spec() is None ==> r is Err;
+}
+impl<T> Unwrapper for Option<T> {
+    type Ok = T;
+    open spec fn some_spec(&self) -> Option<T> { *self }
+    #[verifier::external_body]
+    fn unwrapper<M>(self, helper: &RawExporter, msg: M) -> (r: Result<T, LayoutError>) { match self { Some(t) => Ok(t), None => Err(LayoutError { }) } }
+}
+impl<T, E> Unwrapper for Result<T, E> {
+    type Ok = T;
+    open spec fn some_spec(&self) -> Option<T> { match *self { Ok(t) => Some(t), Err(_) => None } }
+    #[verifier::external_body]
+    fn unwrapper<M>(self, helper: &RawExporter, msg: M) -> (r: Result<T, LayoutError>) { match self { Ok(t) => Ok(t), Err(_) => Err(LayoutError { }) } }
+}
+//@ item layout21tetris/src/coords.rs :: struct PrimPitches
+//@   derive Debug, Clone, Copy
+//@ end
+//@ item layout21tetris/src/coords.rs :: struct LayerPitches
+//@   derive Debug, Clone, Copy
+//@ end
+//@ item layout21tetris/src/coords.rs :: enum UnitSpeced
+//@   derive Debug, Clone, Copy
+//@ end
+//@ item layout21tetris/src/validate.rs :: struct ValidAssign
+//@ end
 /// R5: RawExporter reduced to the validated stack (the library, the cell map and the error context are not read by the functions below)
 pub struct RawExporter { pub stack: ValidStack }
 
@@ -85,6 +115,23 @@ impl ValidStack {
 //@   ret r
 //@   spec
 //|     ensures r is Ok <==> idx < self.metals@.len(), r is Ok ==> *r->Ok_0 == self.metals@[idx as int],
+//@ end
+}
+pub open spec fn xy_dir(xy: Xy<DbUnits>, dir: Dir) -> DbUnits { match dir { Dir::Horiz => xy.x, Dir::Vert => xy.y } }
+/// via layer `j` is the first one whose bottom target is metal `idx`
+pub open spec fn first_via(vias: Seq<ViaLayer>, idx: usize, j: int) -> bool {
+    0 <= j < vias.len() && vias[j].bot == ViaTarget::Metal(idx) && forall|i: int| 0 <= i < j ==> (#[trigger] vias[i]).bot != ViaTarget::Metal(idx)
+}
+impl ValidStack {
+//@ fn layout21tetris/src/validate.rs :: impl ValidStack :: fn via_from
+//@   ret r
+//@   spec
+//|     ensures r is Ok ==> exists|j: int| #[trigger] first_via(self.vias@, idx, j) && *r->Ok_0 == self.vias@[j],
+//|         r is Err ==> forall|i: int| 0 <= i < self.vias@.len() ==> (#[trigger] self.vias@[i]).bot != ViaTarget::Metal(idx),
+//@   loop 1 iter it
+//|             invariant forall|i: int| 0 <= i < it.index@ ==> (#[trigger] self.vias@[i]).bot != ViaTarget::Metal(idx),
+//@   before /return Ok\(via_layer\);/
+//|                     proof { assert(first_via(self.vias@, idx, it.index@ as int)); }
 //@ end
 }
 impl RailKind {
@@ -129,7 +176,50 @@ proof fn lemma_kept_step<'a>(segs: Seq<TrackSegment<'a>>, k: int)
     ensures kept(segs.take(k + 1)) == (if segs[k].tp is Wire || segs[k].tp is Rail { kept(segs.take(k)).push(segs[k]) } else { kept(segs.take(k)) }),
 { assert(segs.take(k + 1).drop_last() == segs.take(k)); }
 
-impl RawExporter {
+/// index (within one period) of the signal track an assignment touches on its top / bottom layer
+pub open spec fn assn_track(assn: ValidAssign, top: bool, n: int) -> int { (if top { assn.top.track } else { assn.bot.track }) as int % n }
+pub open spec fn cross_in_stack(s: ValidStack, at: TrackCross) -> bool { at.track.layer < s.metals@.len() && at.cross.layer < s.metals@.len() }
+/// the (x, y) of a track crossing: a track on a vertical layer has a fixed x (its centre) and the crossing track gives y; transposed on a horizontal layer
+pub open spec fn cross_xy(s: ValidStack, at: TrackCross) -> (int, int) {
+    let tl = s.metals@[at.track.layer as int]; let cl = s.metals@[at.cross.layer as int];
+    let a = center_spec(tl, at.track.track); let b = center_spec(cl, at.cross.track);
+    if tl.spec.dir == Dir::Horiz { (b, a) } else { (a, b) }
+}
+/// the crossing's coordinate along direction `dir`
+pub open spec fn cross_along(s: ValidStack, at: TrackCross, dir: Dir) -> int { match dir { Dir::Horiz => cross_xy(s, at).0, Dir::Vert => cross_xy(s, at).1 } }
+/// `f` is `o` with net `a` set on the first piece containing `at` if that piece is a wire; unchanged if it is a blockage
+pub open spec fn net_set<'a>(o: Seq<TrackSegment<'a>>, f: Seq<TrackSegment<'a>>, at: DbUnits, a: &'a Assign) -> bool {
+    exists|k: int| #[trigger] first_hit(o, at, k) && (
+           (o[k].tp is Wire && f == o.update(k, TrackSegment { tp: TrackSegmentType::Wire { src: Some(a) }, start: o[k].start, stop: o[k].stop }))
+        || (o[k].tp is Blockage && f == o))
+}
+impl<'lib> RawExporter {
+//@ fn layout21tetris/src/conv/raw.rs :: impl<'lib> RawExporter :: fn db_units
+//@   ret r
+//@   sub R5 /pt: impl Into<UnitSpeced>/ => pt: UnitSpeced
+//@   sub R5 /let pt: UnitSpeced = pt\.into\(\);/ => 
+//@   sub R5 /\(p\.num \* pitch\.raw\(\)\)\.into\(\)/ => DbUnits(p.num * pitch.raw())
+//@   spec
+//|     requires !(pt is LayerPitches), pt is PrimPitches ==> isize::MIN <= pt->PrimPitches_0.num * xy_dir(self.stack.prim.pitches, pt->PrimPitches_0.dir).0 <= isize::MAX,
+//|     ensures r.0 == (match pt { UnitSpeced::DbUnits(u) => u.0 as int, UnitSpeced::PrimPitches(p) => p.num * xy_dir(self.stack.prim.pitches, p.dir).0, _ => 0 }),
+//@ end
+//@ fn layout21tetris/src/conv/raw.rs :: impl<'lib> RawExporter :: fn assign_track
+//@   ret r
+//@   spec
+//|     requires stack_ok(self.stack), assn.src.at.track.track <= 0x1000_0000, assn.src.at.cross.track <= 0x1000_0000, old(layer_period).signals@.len() > 0,
+//|         forall|t: int, i: int| 0 <= t < old(layer_period).signals@.len() && 0 <= i < old(layer_period).signals@[t].segments@.len() ==> !((#[trigger] old(layer_period).signals@[t].segments@[i]).tp is Rail),
+//|     ensures final(layer_period).rails@ == old(layer_period).rails@, final(layer_period).index == old(layer_period).index,
+//|         final(layer_period).signals@.len() == old(layer_period).signals@.len(),
+//|         ({
+//|             let tr = assn_track(*assn, top, old(layer_period).signals@.len() as int);
+//|             // only the assigned track (modulo the period) is touched
+//|             (forall|t: int| 0 <= t < old(layer_period).signals@.len() && t != tr ==> #[trigger] final(layer_period).signals@[t] == old(layer_period).signals@[t])
+//|             && final(layer_period).signals@[tr].data == old(layer_period).signals@[tr].data
+//|             && (r is Ok ==> cross_in_stack(self.stack, assn.src.at)
+//|                 // the net lands on the piece at the crossing's coordinate along this layer's direction
+//|                 && net_set(old(layer_period).signals@[tr].segments@, final(layer_period).signals@[tr].segments@, DbUnits(cross_along(self.stack, assn.src.at, layer.spec.dir) as isize), &assn.src))
+//|         }),
+//@ end
 //@ fn layout21tetris/src/conv/raw.rs :: impl<'lib> RawExporter :: fn export_point
 //@   ret r
 //@   spec
@@ -146,13 +236,8 @@ impl RawExporter {
 //@   ret r
 //@   spec
 //|     requires stack_ok(self.stack), i.track.track <= 0x1000_0000, i.cross.track <= 0x1000_0000,
-//|     ensures r is Ok <==> i.track.layer < self.stack.metals@.len() && i.cross.layer < self.stack.metals@.len(),
-//|         r is Ok ==> ({
-//|             let tl = self.stack.metals@[i.track.layer as int]; let cl = self.stack.metals@[i.cross.layer as int];
-//|             let a = center_spec(tl, i.track.track); let b = center_spec(cl, i.cross.track);
-//|             // a track on a vertical layer has a fixed x (its centre), the crossing track gives y; transposed on a horizontal layer
-//|             if tl.spec.dir == Dir::Horiz { r->Ok_0.x.0 == b && r->Ok_0.y.0 == a } else { r->Ok_0.x.0 == a && r->Ok_0.y.0 == b }
-//|         }),
+//|     ensures r is Ok <==> cross_in_stack(self.stack, *i),
+//|         r is Ok ==> r->Ok_0.x.0 == cross_xy(self.stack, *i).0 && r->Ok_0.y.0 == cross_xy(self.stack, *i).1,
 //@ end
 //@ fn layout21tetris/src/conv/raw.rs :: impl<'lib> RawExporter :: fn export_track
 //@   ret r
